@@ -22,7 +22,7 @@ from ..reftex import lexer as L
 PROP = 'C01'
 LEVEL = 'exploration'
 RULE = ('a case = one category table (default, @-letter, verbatim, verbatim+escape/braces, or the default modified by 1-6 random '
-        'Context.catcode assignments; NF-9: end-of-line category only on the newline) x 5 strings of 0-40 (thorough 0-120) characters built '
+        'Context.catcode assignments; any category 0-15, the end-of-line category included) x 5 strings of 0-40 (thorough 0-120) characters built '
         'from weighted fragments over the adversarial alphabet (escape, braces, $ & # ^ _ ~ %, blanks, tab, LF, CR, FF, NUL, DEL, letters, digits, '
         '@, non-ASCII, astral, ^^-sequences, comments, blank-line runs, trailing ^ / ^^ / backslash).  Non-trivial = the strings of the case '
         'produced at least 3 tokens in total and contain a control sequence, a blank run or a ^^ sequence; distinct by content hash.')
